@@ -131,7 +131,7 @@ def targets_arg(sc):
 
 def sequential_oracle(sc, runs):
     st = make_context(dict(sc, storage="none"))
-    return {r: st.get_array(r, targets_arg(sc)) for r in runs}
+    return {r: st.get_array(r, targets_arg(sc), progress_bar=False) for r in runs}
 
 
 # ------------------------------------------------------------------------------------------------
@@ -224,7 +224,7 @@ def extract_skeleton(sc, run_id, st=None, tmpdir=None):
     with quiet():
         sys.settrace(tr.glob)
         try:
-            res = st.get_array(run_id, targets_arg(sc))
+            res = st.get_array(run_id, targets_arg(sc), progress_bar=False)
         finally:
             sys.settrace(None)
     tr.finish()
@@ -452,7 +452,7 @@ def oracle(sc, run_id):
         from harness.props.c15 import quiet
         with quiet():
             st = make_context(dict(sc, storage="none"))
-            _ORACLE[key] = st.get_array(run_id, targets_arg(sc))
+            _ORACLE[key] = st.get_array(run_id, targets_arg(sc), progress_bar=False)
     return _ORACLE[key]
 
 
@@ -472,13 +472,13 @@ def run_real(sc, warm, threads_ncalls, segs):
     with quiet():
         st = make_context(sc, tmpd)
         if warm:
-            st.get_array("001", targets_arg(sc))
+            st.get_array("001", targets_arg(sc), progress_bar=False)
     runs = thread_runs(threads_ncalls)
     shared_reg = st._plugin_class_registry
 
     def mk(rs):
         def f():
-            return [st.get_array(r, targets_arg(sc)) for r in rs]
+            return [st.get_array(r, targets_arg(sc), progress_bar=False) for r in rs]
         return f
 
     I = il.Interleaver()
@@ -620,19 +620,25 @@ def judge_real(ctx, S, unit, sc, warm, ncalls, segs, rres):
 # ------------------------------------------------------------------------------------------------
 
 def scenarios(ctx):
-    big = ctx.thorough or bool(ctx.drift)
+    """quick: 17 scenarios; anchors drifted: + every storage for the cold ones; thorough: the full product"""
     base = [("flat", ("src", "aa")), ("flat", ("aa",)), ("two", ("aa", "bb")), ("two", ("bb",)), ("chain", ("bb",)),
             ("chain", ("bb", "aa")), ("three", ("cc",)), ("three", ("aa", "bb", "cc"))]
     out = []
+    if ctx.thorough:
+        for g, t in base:
+            for stg in ("none", "meta", "dir"):
+                for warm in (False, True):
+                    out.append((dict(graph=g, targets=t, storage=stg), warm))
+        return out
     for g, t in base:
-        for stg in (("none", "meta", "dir") if big else ("none",)):
-            for warm in (False, True):
-                out.append((dict(graph=g, targets=t, storage=stg), warm))
-    if not big:
-        out = [x for x in out if x[0]["graph"] != "three" or not x[1]]
-        out += [(dict(graph="two", targets=("aa", "bb"), storage="meta"), False),
-                (dict(graph="chain", targets=("bb",), storage="dir"), False),
-                (dict(graph="two", targets=("aa", "bb"), storage="dir"), True)]
+        for warm in (False, True):
+            if g != "three" or not warm:
+                out.append((dict(graph=g, targets=t, storage="none"), warm))
+    out += [(dict(graph="two", targets=("aa", "bb"), storage="meta"), False),
+            (dict(graph="chain", targets=("bb",), storage="dir"), False),
+            (dict(graph="two", targets=("aa", "bb"), storage="dir"), True)]
+    if ctx.drift:
+        out += [(dict(graph=g, targets=t, storage="meta"), False) for g, t in base[:6]]
     return out
 
 
@@ -641,6 +647,10 @@ def unit_sequential(ctx, S):
     skeleton does not depend on the cache, and the skeleton satisfies the hypothesis of ctx_race_free"""
     from harness.props.c15 import quiet
     n = 0
+    il.resolve_labels()
+    if il.MISSING:
+        ctx.violation("ctx_race", "labelled statements of the model were not found in strax/context.py: %s" % il.MISSING[:3],
+                      {"input": "corr:C15/ctx_race/labels", "missing": il.MISSING}, no_failing_input=True)
     for sc, w in scenarios(ctx):
         if w:
             continue
@@ -655,7 +665,7 @@ def unit_sequential(ctx, S):
         with quiet():
             sys.settrace(tr2.glob)
             try:
-                res2 = st.get_array("002", targets_arg(sc))
+                res2 = st.get_array("002", targets_arg(sc), progress_bar=False)
             finally:
                 sys.settrace(None)
         tr2.finish()
@@ -725,10 +735,10 @@ def random_fine(rng, nthreads):
 
 def unit_interleave(ctx, S):
     rng = ctx.rng
-    big = ctx.thorough or bool(ctx.drift)
+    big = ctx.thorough
     n_eval = 0
-    n_coarse = 30 if big else 5
-    n_fine = 30 if big else 5
+    n_coarse = 30 if big else (8 if ctx.drift else 5)
+    n_fine = 30 if big else (8 if ctx.drift else 5)
     for sc, warm in scenarios(ctx):
         t_sc = lib.now()
         mc, tr = build_mc(sc, warm)
@@ -918,7 +928,7 @@ def os_eval(case):
     with quiet():
         st = make_context_os(sc, tmpd, fail)
         if case["cache"] == "warm":
-            st.get_array("001", targets_arg(sc))
+            st.get_array("001", targets_arg(sc), progress_bar=False)
         try:
             kw = dict(max_workers=w, multi_run_progress_bar=False)
             if case["ignore_errors"]:
@@ -926,9 +936,12 @@ def os_eval(case):
             if api == "make":
                 st.make(runs, targets_arg(sc), **kw)
                 ok_runs = [r for r in sorted(runs) if r not in fail]
+                not_made = [r for r in ok_runs if not all(st.is_stored(r, t) for t in sc["targets"])]
+                if not_made:
+                    return "make() returned but runs %s are not stored" % not_made, None
                 got = np.concatenate([strax.merge_arrs([np.array([r] * len(oracle(sc, r)),
                                                                  dtype=[("run_id", np.array(runs).dtype)]),
-                                                        st.get_array(r, targets_arg(sc))]) for r in ok_runs]) \
+                                                        st.get_array(r, targets_arg(sc), progress_bar=False)]) for r in ok_runs]) \
                     if ok_runs else None
             elif api == "get_df":
                 got = st.get_df(runs, targets_arg(sc), **kw)
@@ -960,8 +973,15 @@ def unit_os_schedule(ctx, S):
     n = 0
     try:
         sys.setswitchinterval(1e-6)
-        for trial in range(ntr):
-            case = os_case(rng, trial)
+        fixed = []
+        for nruns in (2, 3):                     # the boundary of the multi-run branches (len(run_ids) > 1)
+            for api in ("make", "get_array", "get_df"):
+                for g, targets in (("chain", ("bb",)), ("two", ("aa", "bb"))):
+                    fixed.append({"scenario": {"graph": g, "targets": list(targets), "storage": "dir"},
+                                  "runs": ["%03d" % (200 + 7 * i) for i in range(nruns)][::-1], "workers": 2,
+                                  "fail": [], "ignore_errors": False, "api": api, "cache": "cold"})
+        for trial in range(len(fixed) + ntr):
+            case = fixed[trial] if trial < len(fixed) else os_case(rng, trial)
             reason, exc = os_eval(case)
             n += 1
             dist["failing_run_cases"] += bool(case["fail"])
@@ -1049,7 +1069,7 @@ def replay(ctx, obj):
         sc["targets"] = tuple(sc["targets"])
         with quiet():
             st = make_context(sc, new_tmpdir() if sc["storage"] == "dir" else None)
-            res = [st.get_array(r, targets_arg(sc)) for r in inp["runs"]]
+            res = [st.get_array(r, targets_arg(sc), progress_bar=False) for r in inp["runs"]]
         bad = [r for r, a in zip(inp["runs"], res) if not same_array(a, oracle(sc, r))]
         print("runs whose rows differ from a fresh context:", bad)
         cleanup_tmp()
